@@ -119,6 +119,19 @@ impl SyntaxPattern {
                                     for (var, multi_match) in multi_matches_substitutions {
                                         substitutions.get_mut(&var).unwrap().1.push(multi_match.0);
                                     }
+                                } else {
+                                    // the run matched by the ellipsis ends before a form that does not
+                                    // match the repeated sub-pattern; the form must not be dropped silently
+                                    return Self::match_datum_stream(
+                                        pattern_index + 1,
+                                        datum_index,
+                                        depth,
+                                        patterns,
+                                        datums,
+                                        pattern_literals,
+                                        substitutions,
+                                        None,
+                                    );
                                 }
                                 if Self::match_datum_stream(
                                     pattern_index,
